@@ -334,8 +334,10 @@ pub fn run(args: &Args) {
         cfg.ay = true;
         let mut emu = cfg.build();
         poke_bytes(&mut emu, 0x8000, &[0xED, 0x79, 0x18, 0xFE]);
+        // "register numbers wrap modulo 16": half of the programs select their registers with any upper four bits
+        let hi = if i % 4 >= 2 { *r.pick(&[0x10u8, 0xF0, 0x40, 0xA0]) } else { 0 };
         let mut wr = |emu: &mut Emu, reg: u8, val: u8| {
-            for (port, v) in [(0xFFFDu16, reg), (0xBFFD, val)] {
+            for (port, v) in [(0xFFFDu16, reg | hi), (0xBFFD, val)] {
                 let c = emu.verif_cpu();
                 c.regs.set_bc(port);
                 c.regs.set_acc(v);
